@@ -88,7 +88,11 @@ class WriterContract:
         exc = self.error(ctx, value)
         if exc is not None:
             raise PyRaise(exc)
-        buffer.emit(Enc(self.desc(value), value))
+        d = self.desc(value)
+        if isinstance(value, SOpt) and d[0] not in ("ncstr", "ncbytes", "nlstr", "nlbytes", "nent", "nts", "uuid", "carr", "larr"):
+            from kvc.models import resolve_opt
+            value = resolve_opt(ctx, value)
+        buffer.emit(Enc(d, value))
         return None
 
 
@@ -260,7 +264,11 @@ class TaggedFieldContract:
         exc = wc.error(ctx, value)
         if exc is not None:
             raise PyRaise(exc)
-        payload = Enc(wc.desc(value), value)
+        d = wc.desc(value)
+        if isinstance(value, SOpt) and d[0] not in ("ncstr", "ncbytes", "nlstr", "nlbytes", "nent", "nts", "uuid", "carr", "larr"):
+            from kvc.models import resolve_opt
+            value = resolve_opt(ctx, value)
+        payload = Enc(d, value)
         for f in kafka.length_facts(payload):
             ctx.assume(f)
         plen = payload.length()
@@ -412,7 +420,7 @@ class ReaderContract:
         ctx = interp.ctx
         from kio.serial.errors import BufferUnderflow
         for exc in (BufferUnderflow,) + self.general_errors:
-            if ctx.decide(z3.Bool(ctx.fresh(f"g_{self.name}_{exc.__name__}"))):
+            if ctx.decide_free(f"g_{exc.__name__}"):
                 raise PyRaise(exc)
         v = domains.generic(ctx, self.desc if not self.maxbytes else ("uv", 128 ** self.maxbytes),
                             ctx.fresh(f"g_{self.name}"), strict=False)
